@@ -37,6 +37,27 @@ def C18(ctx):
                         "callers do not write through pointers the library hands out to its constant tables (describeH3Error)"]
 
 
+def guard_rows(ctx, props_sel, cfg="release"):
+    """run the R-GUARD rows attributed to the given properties (None = all rows)"""
+    from . import rules_guard
+    rows = [r for r in rules_guard.load_rows() if props_sel is None or set(r["props"]) & set(props_sel)]
+    inl_fns = sorted({r["fn"] for r in rows if r.get("mod", "inl") == "inl"})
+    cache = {}
+
+    def gm(kind, fn):
+        if kind not in cache:
+            cache[kind] = module(cfg, kind, inl_fns if kind == "inl" else None)
+        return cache[kind]
+    n = 0
+    for row in rows:
+        n += 1
+        try:
+            rules_guard._check_row(ctx, gm, row, "R-GUARD", cfg)
+        except AnalysisBroken as e:
+            ctx.broken("R-GUARD", "row %s: %s" % (row["id"], e))
+    return n
+
+
 C17_ENTRY = ["compactCells", "gridDisk", "gridDiskDistances", "areNeighborCells", "polygonToCells",
              "polygonToCellsExperimental", "maxPolygonToCellsSizeExperimental"]
 
@@ -83,7 +104,41 @@ def C17(ctx):
                         "linkedGeo.c / vertexGraph.c assert() on allocation failure: outside the C17 function list, only leak/double-free typestate applies there"]
 
 
+GUARD_TXT = ("R-GUARD/R-CONJ: each frozen row of rules/guards.json names a function, a term (parameter, bit field of an index by "
+             "offset/width, non-finite double field, result of a callee, pair of values) and the documented domain; the function's IR "
+             "(all helpers inlined, or modular with the callee's result as the term) is explored by a path-sensitive range propagation "
+             "under the assumption that the term lies OUTSIDE the domain: no reachable return may yield success (G1), the documented code "
+             "must be reachable (G2), nothing may be stored through the output parameter (G3), and boundary values inside the domain must "
+             "still be able to succeed (G4). Validator conjuncts are explored with one conjunct assumed false: every return must be 0.")
+
+
+def part_guards(pid):
+    def run(ctx):
+        n = guard_rows(ctx, None if pid == "C12" else [pid])
+        ctx.explanation += GUARD_TXT + " "
+        ctx.note("guard_rows", n)
+        return n
+    return run
+
+
+PARTS = {
+    "C01": [part_guards("C01")], "C02": [part_guards("C02")], "C04": [part_guards("C04")], "C05": [part_guards("C05")],
+    "C06": [part_guards("C06")], "C09": [part_guards("C09")], "C10": [part_guards("C10")], "C11": [part_guards("C11")],
+    "C12": [part_guards("C12")], "C13": [part_guards("C13")], "C14": [part_guards("C14")], "C15": [part_guards("C15")],
+    "C20": [part_guards("C20")],
+}
+
+
+def composite(pid):
+    def run(ctx):
+        for part in PARTS[pid]:
+            part(ctx)
+    return run
+
+
 PROPS = {"C17": C17, "C18": C18}
+for _pid in PARTS:
+    PROPS[_pid] = composite(_pid)
 
 
 def main(argv):
